@@ -225,8 +225,12 @@ def judge_case(rng, case, result_cmds, npts=60, eps=0.08):
         rules = [s["clip_rule"] for s in shapes]
     ops = [contours_of(s["d"]) for s in shapes]
     res = geom.flatten(result_cmds, 1e-3)
+    boxes = [b for b in (geom.bbox(c) for c in ops + [res] if c) if b]
+    lo = min([-1.0] + [min(b[0], b[1]) - 1 for b in boxes])
+    hi = max([21.0] + [max(b[2], b[3]) + 1 for b in boxes])
+    eps = eps * (hi - lo) / 22.0
     for _ in range(npts):
-        x, y = rng.uniform(-1, 21), rng.uniform(-1, 21)
+        x, y = rng.uniform(lo, hi), rng.uniform(lo, hi)
         if any(geom.edge_dist(c, x, y) < eps for c in ops if c) or (res and geom.edge_dist(res, x, y) < eps):
             continue
         want = combine(kind, [geom.inside(c, x, y, r) for c, r in zip(ops, rules)])
@@ -239,6 +243,21 @@ def judge_case(rng, case, result_cmds, npts=60, eps=0.08):
     return None
 
 
+# operations on which the engine returns a wrong path without raising (listed in known_findings.json by input)
+ENGINE_WITNESSES = [
+    {"kind": "union", "explicit": None, "shapes": [
+        {"d": "M65,60 L0,0 L25,90 L80,40 Z", "fill_rule": "evenodd", "clip_rule": "evenodd"},
+        {"d": "M100,0 L60,90 C50,55 60,95 50,35 L50,15 L20,85 Z M65,85 C10,50 30,20 10,55 L80,35 C70,35 5,70 90,50 L100,25 L85,50 Z",
+         "fill_rule": "evenodd", "clip_rule": "evenodd"}]},
+]
+
+
+def witness_fails(case):
+    import random as _r
+    o, v, _ = run_impl(case)
+    return bool(o == "ok" and judge_case(_r.Random(1), case, v, npts=1500))
+
+
 def search(ctx, disagreements):
     results = getattr(ctx, "_results", None)
     if results is None:
@@ -249,6 +268,13 @@ def search(ctx, disagreements):
             if o == "ok":
                 results.append((c, v, rec))
     found = []
+    import random as _r
+    for c in ENGINE_WITNESSES:
+        o, v, _ = run_impl(c)
+        why = judge_case(_r.Random(1), c, v, npts=1500) if o == "ok" else None
+        ctx.count("judged-witness")
+        if why:
+            found.append({"kind": "set-law", "input": c, "detail": why, "key": "witness:" + c["shapes"][-1]["d"][:40]})
     for c, v, rec in results:
         if not c["shapes"]:
             continue
@@ -269,7 +295,14 @@ def search(ctx, disagreements):
 
 
 def classify(v, findings):
+    for e in findings:
+        if e.get("status") == "finding" and v.get("kind") == "set-law" and v.get("input") == e.get("witness"):
+            return e["id"]
     return None
+
+
+def replay_finding(ctx, e):
+    return witness_fails(e["witness"])
 
 
 def replay(ctx, payload):
